@@ -877,9 +877,23 @@ impl<'t> Gen<'t> {
                 };
                 items.push(SelectItem { expr: e, alias: format!("c{i}"), print_alias: true });
             }
+            // A grouping expression over a column that is itself a grouping key
+            // (ROLLUP (a, (a IS NULL))) is re-evaluated by the engine from the
+            // nulled key in subtotal rows instead of being treated as a key
+            // (DESIGN 7, dialect restrictions): such key lists stay plain.
+            let cols_of = |e: &Expr| -> Vec<String> {
+                let mut v = Vec::new();
+                e.walk(&mut |x| {
+                    if let Expr::Col { rel, name, .. } = x {
+                        v.push(format!("{rel}.{name}"));
+                    }
+                });
+                v
+            };
+            let overlapping = (0..keys.len()).any(|i| (0..keys.len()).any(|j| i != j && cols_of(&keys[i]).iter().any(|c| cols_of(&keys[j]).contains(c))));
             group_by = if keys.is_empty() {
                 GroupBy::None
-            } else if self.f.rollup_cube && self.rng.chance(1, 4) {
+            } else if self.f.rollup_cube && !overlapping && self.rng.chance(1, 4) {
                 if keys.len() <= 2 && self.rng.chance(1, 2) { GroupBy::Cube(keys.clone()) } else { GroupBy::Rollup(keys.clone()) }
             } else {
                 GroupBy::Plain(keys.clone())
@@ -898,6 +912,24 @@ impl<'t> Gen<'t> {
                 let lit = self.literal(t);
                 let op = *self.rng.pick(&[BinOp::Gt, BinOp::Ge, BinOp::Lt, BinOp::Eq, BinOp::Ne]);
                 having = Some(Expr::Bin(op, Box::new(a), Box::new(lit)));
+            }
+            // predicates over grouping keys (alone or next to the aggregate
+            // predicate): what filter pushdown may move below the aggregate
+            if self.f.having && !keys.is_empty() && self.rng.chance(1, 3) {
+                let k = self.rng.pick(&keys).clone();
+                let kp = match self.rng.below(4) {
+                    0 => Expr::IsNull { e: Box::new(k), neg: false },
+                    1 => Expr::IsNull { e: Box::new(k), neg: true },
+                    _ => {
+                        let lit = self.literal(k.ty());
+                        let op = *self.rng.pick(&[BinOp::Gt, BinOp::Le, BinOp::Eq, BinOp::Ne]);
+                        Expr::Bin(op, Box::new(k), Box::new(lit))
+                    }
+                };
+                having = Some(match having.take() {
+                    Some(h) if self.f.and_or && self.rng.chance(1, 2) => Expr::Bin(BinOp::And, Box::new(h), Box::new(kp)),
+                    _ => kp,
+                });
             }
         } else {
             let mut prior: Vec<(String, Ty)> = Vec::new();
